@@ -937,3 +937,26 @@ vharness! {
         })
     }
 }
+
+vharness! {
+    //@ props: C06 C05 C13 C14
+    //@ env: VERIF_MVEC_CAP=1
+    //@ tier: quick
+    //@ expect: fail
+    //@ stubs: yes
+    //@ desc: reachability twin of the v3 shared-state step harnesses (claims a correct acknowledgement of the oldest send is refused)
+    #[kani::stub(<codec::Codec as Encoder>::encodev, stub_encodev3)]
+    fn twin_sh3_ack_step() unwind(5) {
+        vio::with_io(move |io| {
+            let sh = new_shared(io);
+            sh.cap.set(1);
+            let id = nz(vk::any_u16());
+            let rx = push_out(&sh, id, K::Publish);
+            let rxs = arb_waiters(&sh, 1);
+            let res = sh.pkt_ack(mk_ack(K::Publish, id));
+            assert!(res.is_err() || rxs[0].as_ref().map_or(false, |r| peek_unit(r).is_none()));
+            std::mem::forget((rx, rxs));
+            std::mem::forget(sh);
+        })
+    }
+}
